@@ -45,13 +45,15 @@ pub fn spec_name(s: &Spec) -> String { format!("k{}-{:?}-w{}", s.k, s.mode, s.wi
 
 const SHARED: u32 = 20;
 const TWICE: u32 = 21;
+/// object streams are numbered from here (clear of 1-7, SHARED, TWICE and the unique objects 30..61)
+const CONTAINER0: u32 = 100;
 const XREF_ID: u32 = 900;   // above every other number the generator uses (containers 10.., unique objects 30..61 for k = 16)
 const DATA: &[u8] = b"0123456789abcdefghijklmnopqrstuvwxyz";
 
 enum Ent { Free, Normal(usize), Compressed(u32, u32) }
 
 /// Assemble the file. Objects: 1 catalog, 2 pages, 3 page, 4 stream with /Length 20 0 R (the shared compressed
-/// object: container i says i+1), 5 stream with /Length 0, 6 stream with /Length 7 0 R, 7 integer, 10.. object streams,
+/// object: container i says i+1), 5 stream with /Length 0, 6 stream with /Length 7 0 R, 7 integer, 100.. object streams,
 /// 30+2i / 31+2i unique to container i, 21 listed twice in container 0, 60 the cross-reference stream.
 /// `wide` > 0 additionally gives every container an index of `wide` entries over a pool of few numbers (1000+), so that
 /// one object number is listed many times in one index block and in several containers.
@@ -75,7 +77,7 @@ pub fn build_file(s: &Spec) -> Vec<u8> {
     if s.mode == Mode::Normal { put(&mut f, &mut ent, SHARED, b"33"); }
     let mut wide_owner: BTreeMap<u32, u32> = BTreeMap::new();
     for i in 0..s.k {
-        let cid = 10 + i as u32;
+        let cid = CONTAINER0 + i as u32;
         // (object number, text)
         let mut items: Vec<(u32, String)> = vec![];
         items.push((30 + 2 * i as u32, format!("<< /U {} /C {} >>", 30 + 2 * i, i)));
@@ -101,10 +103,10 @@ pub fn build_file(s: &Spec) -> Vec<u8> {
         ent.insert(30 + 2 * i as u32, Ent::Compressed(cid, 0));
         ent.insert(31 + 2 * i as u32, Ent::Compressed(cid, 3));
     }
-    ent.insert(TWICE, Ent::Compressed(10, 2));
-    for (n, c) in &wide_owner { let c = if n % 3 == 0 { 10 + (s.k as u32 - 1) } else { *c }; ent.insert(*n, Ent::Compressed(c, 0)); }   // a third designated to the last container
+    ent.insert(TWICE, Ent::Compressed(CONTAINER0, 2));
+    for (n, c) in &wide_owner { let c = if n % 3 == 0 { CONTAINER0 + (s.k as u32 - 1) } else { *c }; ent.insert(*n, Ent::Compressed(c, 0)); }   // a third designated to the last container
     match s.mode {
-        Mode::Designated(d) => { ent.insert(SHARED, Ent::Compressed(10 + d as u32, 1)); }
+        Mode::Designated(d) => { ent.insert(SHARED, Ent::Compressed(CONTAINER0 + d as u32, 1)); }
         Mode::Free => { ent.insert(SHARED, Ent::Free); }
         Mode::Absent | Mode::Normal => {}
         Mode::Elsewhere => { ent.insert(SHARED, Ent::Compressed(2, 0)); }
